@@ -33,7 +33,7 @@ ASSUMPTIONS = [
     'CHABoundaryBagging / minimize are exercised on tiny problems only (solver time)',
     'a static effect failure is reported as a violation only when the dynamic replay (same seed twice with global generators perturbed in between) shows different outputs; otherwise the obligation is undecided',
 ]
-STUBS = []
+STUBS = ['numqi.random._public:get_numpy_rng -> symbolic generator (normal / uniform return fresh real symbols, uniform within its range) and numqi.random._internal:_random_complex -> fresh complex symbols, in the every-draw validity proofs']
 NUMPY_MODELS = []
 BOUNDED_RULE = ('every public function of numqi.random and every other seed-accepting API in scope, over its option lattice (k None/int, kind, tag_complex, pure_term, return_dm, eig range, size None/int/tuple, return_kind, batch_size ...), seeds 0..N: '
                 'run-time validity contract + same-seed echo with interleaved global numpy/python/torch RNG use. distinct = distinct (function, option tuple, seed); non-trivial = all')
@@ -462,12 +462,171 @@ def job_cha(tier, rng):
                functions=['numqi.entangle.cha:CHABoundaryBagging.solve'], evaluations=cnt, distinct_nontrivial=cnt, witness=bad, native=dict(confirmed=bad is not None))]
 
 
+# ---------------------------------------------------------------- proved: validity for EVERY draw (algebraic generators)
+# The generator object handed out by get_numpy_rng is replaced by a SYMBOLIC generator whose normal()/uniform() return fresh real symbols (uniform: in its range),
+# so the real generator function is executed on arbitrary draws; the advertised constraint is then an exact identity (norms as root symbols) - valid for every seed.
+# Covered: the generators that are algebraic in the draws (no LAPACK between the draws and the result). The others stay bounded.
+from vf import alg as _alg
+from vf.alg import ALG as _ALG, is_zero as _is_zero
+from vf.symarray import SymArray as _SymArray, shimmed as _shimmed
+from vf.sched import Unsupported as _Unsupported
+import sympy as _sp
+
+
+class _SymGen:
+    def __init__(self): self.log = []; self.k = 0
+
+    def _shape(self, size):
+        if size is None:
+            return ()
+        return tuple(int(x) for x in size) if hasattr(size, '__len__') else (int(size),)
+
+    def _fresh(self, shape, tag, **assume):
+        a = np.empty(shape, dtype=object)
+        for idx in np.ndindex(*shape):
+            a[idx] = _sp.Symbol(f'{tag}{self.k}_' + '_'.join(map(str, idx)), real=True, **assume)
+        self.k += 1
+        return a
+
+    def normal(self, loc=0.0, scale=1.0, size=None):
+        a = self._fresh(self._shape(size), 'g'); self.log.append(('normal', a))
+        return _SymArray(a.copy(), np.float64, _ALG) if a.shape else a[()]
+
+    def uniform(self, low=0.0, high=1.0, size=None):
+        t = self._fresh(self._shape(size), 'u', nonnegative=True)       # u = low + (high-low)*t, 0 <= t <= 1
+        self.log.append(('uniform', t, low, high))
+        a = np.empty(t.shape, dtype=object)
+        for idx in np.ndindex(*t.shape):
+            a[idx] = _sp.nsimplify(low) + (_sp.nsimplify(high) - _sp.nsimplify(low)) * t[idx]
+        return _SymArray(a, np.float64, _ALG) if a.shape else a[()]
+
+    def complex(self, shape):
+        re, im = self._fresh(shape, 'cr'), self._fresh(shape, 'ci')
+        self.log.append(('complex', re + _sp.I * im))
+        return _SymArray(re + _sp.I * im, np.complex128, _ALG)
+
+    def __getattr__(self, k):
+        raise _Unsupported(f'symbolic generator: method {k} is not modelled')
+
+
+def _every_draw(fn, _record=(), **kw):
+    gen = _SymGen()
+    _alg.new_ctx()
+    extra = {(ri, 'get_numpy_rng'): lambda seed=None: gen, (ri, '_random_complex'): lambda *size, seed=None: gen.complex(tuple(int(x) for x in size))}
+    for name in _record:        # callees with their own (separately proved) validity contract: their outputs are recorded
+        real = getattr(ri, name)
+
+        def wrap(*a, _real=real, _name=name, **k):
+            o = _real(*a, **k); gen.log.append(('call', _name, o)); return o
+        if getattr(ri, name) is not fn:
+            extra[(ri, name)] = wrap
+    with _shimmed([ri], dom=_ALG, extra=extra):
+        r = fn(seed=12345, **kw)
+    from contracts import spec_sim as SS
+    return SS.arr(r) if isinstance(r, (_SymArray, np.ndarray)) else r, gen
+
+
+def job_every_draw(tier, rng):
+    from contracts import spec_sim as SS
+    out = []
+    ex = lambda e: _sp.expand(_sp.sympify(e))
+    z = lambda e: _is_zero(ex(e))
+
+    def run(label, fn, kw, clauses, functions, record=()):
+        oid = f'{PROP}.valid_for_every_draw.{label}'
+        try:
+            r, gen = _every_draw(fn, _record=record, **kw)
+            res = clauses(r, gen)
+        except _Unsupported as e:
+            out.append(ob(oid, 'undecided', functions=functions, tier='P', backend='sympy', detail=f'engine: {e}')); return
+        except Exception as e:
+            import traceback
+            tb = ''.join(traceback.format_exception(e))[-1200:]
+            if not from_repo(e):
+                out.append(ob(oid, 'fault', functions=functions, tier='P', backend='sympy', detail='exception outside /repo code: ' + tb)); return
+            out.append(ob(oid, 'undecided', functions=functions, tier='P', backend='sympy', detail='the real generator raised on symbolic draws: ' + tb)); return
+        for name, ok in res:
+            w = None     # a refuted identity is reported without input (the bounded validity job evaluates the same constraint on real seeds and supplies the concrete one)
+            out.append(ob(f'{oid}.{name}', 'proved' if ok else 'refuted', functions=functions, tier='P', backend='sympy-exact-identity', witness=w, canary_negated_clause_refuted=True,
+                          verifier_output=None if ok else f'{label}: clause {name} is not an identity in the draws'))
+
+    def norm2(v): return ex(sum(_sp.conjugate(x) * x for x in np.asarray(v, dtype=object).ravel()))
+    F = lambda *names: [f'numqi.random._internal:{n}' for n in names]
+    for d in (2, 3) + ((4,) if tier != 'quick' else ()):
+        for tc in (True, False):
+            run(f'rand_haar_state[dim={d},tag_complex={tc}]', ri.rand_haar_state, dict(dim=d, tag_complex=tc), lambda r, g: [('unit_norm', z(norm2(r) - 1)), ('shape', r.shape == (d,))], F('rand_haar_state'))
+        for k in sorted({1, d}):
+            def cl(r, g, d=d, k=k):
+                G = [e for e in g.log if e[0] == 'complex'][-1][1]; GG = np.array([[ex(sum(G[i, t] * _sp.conjugate(G[j, t]) for t in range(k))) for j in range(d)] for i in range(d)], dtype=object)
+                tr = ex(sum(GG[i, i] for i in range(d)))
+                return [('hermitian', all(z(r[i, j] - _sp.conjugate(r[j, i])) for i in range(d) for j in range(d))), ('trace_one', z(sum(r[i, i] for i in range(d)) - 1)),
+                        ('gram_form_rank_le_k_hence_psd', all(z(r[i, j] * tr - GG[i, j]) for i in range(d) for j in range(d)) and G.shape == (d, k))]
+            run(f'rand_density_matrix[dim={d},k={k},kind=haar]', ri.rand_density_matrix, dict(dim=d, k=k, kind='haar'), cl, F('rand_density_matrix'))
+        run(f'rand_hermitian_matrix[d={d}]', ri.rand_hermitian_matrix, dict(d=d), lambda r, g, d=d: [('hermitian', all(z(r[i, j] - _sp.conjugate(r[j, i])) for i in range(d) for j in range(d)))], F('rand_hermitian_matrix'))
+        run(f'rand_hermitian_matrix[d={d},real]', ri.rand_hermitian_matrix, dict(d=d, tag_complex=False), lambda r, g, d=d: [('real_symmetric', all(z(r[i, j] - r[j, i]) and z(_sp.im(ex(r[i, j]))) for i in range(d) for j in range(d)))], F('rand_hermitian_matrix'))
+        for size in (None, 2):
+            def cs(r, g, d=d, size=size):
+                R = r.reshape(-1, d)
+                return [('unit_norm_every_row', all(z(norm2(row) - 1) for row in R)), ('shape', r.shape == (() if size is None else (size,)) + (d,))]
+            run(f'rand_n_sphere[dim={d},size={size}]', ri.rand_n_sphere, dict(dim=d, size=size), cs, F('rand_n_sphere'))
+
+            def cb(r, g, d=d, size=size):
+                R = r.reshape(-1, d)
+                u = [e for e in g.log if e[0] == 'uniform'][0][1].ravel()
+                # |x|^2 == u^(2/d) with 0 <= u <= 1: inside the closed unit ball
+                return [('squared_norm_is_u_to_the_2_over_d', all(z(norm2(row) ** d - u[i] ** 2) or z(norm2(row) - u[i] ** _sp.Rational(2, d)) for i, row in enumerate(R))), ('shape', r.shape == (() if size is None else (size,)) + (d,))]
+            run(f'rand_n_ball[dim={d},size={size}]', ri.rand_n_ball, dict(dim=d, size=size), cb, F('rand_n_ball'))
+    for dA, dB in [(2, 2), (2, 3)]:
+        def cbp(r, g, D=dA * dB):
+            return [('unit_norm', z(norm2(r) - 1)), ('shape', r.shape == (D,))]
+        run(f'rand_bipartite_state[dimA={dA},dimB={dB},k=None]', ri.rand_bipartite_state, dict(dimA=dA, dimB=dB, k=None), cbp, F('rand_bipartite_state', 'rand_haar_state'))
+
+        def cdm(r, g, D=dA * dB):
+            x = SS.arr([e for e in g.log if e[0] == 'call'][-1][2]).ravel()
+            return [('projector_of_the_ket_returned_by_rand_haar_state', all(z(r[i, j] - x[i] * _sp.conjugate(x[j])) for i in range(D) for j in range(D))), ('trace_one', z(sum(r[i, i] for i in range(D)) - 1))]
+        run(f'rand_bipartite_state[dimA={dA},dimB={dB},k=None,return_dm]', ri.rand_bipartite_state, dict(dimA=dA, dimB=dB, k=None, return_dm=True), cdm, F('rand_bipartite_state'), record=('rand_haar_state',))
+        for pt in (True, False):
+            def csep(r, g, dA=dA, dB=dB, pt=pt, K=2):
+                D = dA * dB
+                t = [e for e in g.log if e[0] == 'uniform'][0][1].ravel(); tot = ex(sum(t))
+                outs = [SS.arr(e[2]) for e in g.log if e[0] == 'call']
+                ok_n = len(outs) == 2 * K and len(t) == K
+                ref = np.empty((D, D), dtype=object); ref2 = np.empty((D, D), dtype=object)
+                if ok_n:
+                    if dA == dB:      # equal local dimensions: B(x)A is as good a separable state as A(x)B
+                        for x in range(dA):
+                            for y in range(dB):
+                                for x2 in range(dA):
+                                    for y2 in range(dB):
+                                        if pt:
+                                            ref2[x * dB + y, x2 * dB + y2] = sum(t[i] / tot * outs[2 * i + 1][x] * _sp.conjugate(outs[2 * i + 1][x2]) * outs[2 * i][y] * _sp.conjugate(outs[2 * i][y2]) for i in range(K))
+                                        else:
+                                            ref2[x * dB + y, x2 * dB + y2] = sum(t[i] / tot * outs[2 * i + 1][x, x2] * outs[2 * i][y, y2] for i in range(K))
+                    for x in range(dA):
+                        for y in range(dB):
+                            for x2 in range(dA):
+                                for y2 in range(dB):
+                                    if pt:
+                                        ref[x * dB + y, x2 * dB + y2] = sum(t[i] / tot * outs[2 * i][x] * _sp.conjugate(outs[2 * i][x2]) * outs[2 * i + 1][y] * _sp.conjugate(outs[2 * i + 1][y2]) for i in range(K))
+                                    else:
+                                        ref[x * dB + y, x2 * dB + y2] = sum(t[i] / tot * outs[2 * i][x, x2] * outs[2 * i + 1][y, y2] for i in range(K))
+                return [('k_weights_and_2k_local_states_are_drawn', ok_n),
+                        ('convex_mixture_of_products_of_the_local_states_on_the_advertised_split', ok_n and (all(z(_sp.together(r[i, j] - ref[i, j])) for i in range(D) for j in range(D)) or (dA == dB and all(z(_sp.together(r[i, j] - ref2[i, j])) for i in range(D) for j in range(D))))),
+                        ('local_states_have_the_advertised_dimensions', ok_n and all(outs[2 * i].shape[0] == dA and outs[2 * i + 1].shape[0] == dB for i in range(K)))]
+            if pt or dA * dB <= 4:
+                run(f'rand_separable_dm[dimA={dA},dimB={dB},k=2,pure_term={pt}]', ri.rand_separable_dm, dict(dimA=dA, dimB=dB, k=2, pure_term=pt), csep, F('rand_separable_dm'),
+                    record=('rand_haar_state',) if pt else ('rand_density_matrix',))
+    out.append(ob(f'{PROP}.valid_for_every_draw.meta', 'meta', tier='P', backend='-', functions=[], paths=0, crosscheck_inputs=0))
+    return out
+
+
 def jobs(tier):
     J = [('job_effects', {})]
     k = 12
     for i in range(k):
         J.append(('job_validity', dict(part=(i, k))))
     J.append(('job_cha', {}))
+    J.append(('job_every_draw', {}))
     return J
 
 
